@@ -40,8 +40,23 @@ FIELD_OF = {'R3': 'R', 'R2': 'R', 'C2': 'C', 'R': 'R', 'C': 'C'}
 FIELDS = ('R', 'C')
 SPACE_SRC = {'R3': 'odl.rn(3)', 'R2': 'odl.rn(2)', 'C2': 'odl.cn(2)',
              'R': 'odl.RealNumbers()', 'C': 'odl.ComplexNumbers()'}
+# A harness-defined leaf that is a correct operator whenever ``x`` and ``out`` are distinct but
+# is NOT safe for ``out is x`` (like the library's finite-difference stencils): the cyclic
+# forward difference written entry by entry.  On correct code no combinator ever calls an
+# operand with aliased input/output when the caller passed distinct ``x`` and ``out``.
+SEQDIFF_SRC = '''
+class SeqDiff(odl.Operator):
+    """Cyclic forward difference, written sequentially into ``out`` (not alias-safe)."""
+    def __init__(self, space):
+        super(SeqDiff, self).__init__(space, space, linear=True)
+    def _call(self, x, out):
+        n = self.domain.size
+        for i in range(n):
+            out.data[i] = x.data[(i + 1) % n] - x.data[i]
+'''
 PREAMBLE = ('import numpy as np, odl\n'
-            'R3, R2, C2, R = odl.rn(3), odl.rn(2), odl.cn(2), odl.RealNumbers()\n')
+            'R3, R2, C2, R = odl.rn(3), odl.rn(2), odl.cn(2), odl.RealNumbers()\n'
+            + SEQDIFF_SRC)
 
 # scalars: dyadic, |a|^2 a power of two; python types as a user would write them
 SCALARS = {'2': 2, '-1': -1, '0.5': 0.5, '0': 0, '1j': 1j}
@@ -110,9 +125,10 @@ def _matvec(M, x):
                      for i in range(M.shape[0])])
 
 
-def _leaf(dom, ran, lin, kind, src, ref, exact=True):
+def _leaf(dom, ran, lin, kind, src, ref, exact=True, alias=True):
+    """``alias``: the leaf itself gives the right result when called with ``out is x``."""
     return {'dom': dom, 'ran': ran, 'lin': lin, 'kind': kind, 'src': src, 'ref': ref,
-            'exact': exact}
+            'exact': exact, 'alias': alias}
 
 
 def _arr(a):
@@ -129,6 +145,8 @@ LEAVES = {
                    lambda x: _matvec(M33, x)),
     'Mul3': _leaf('R3', 'R3', True, 'LinOp',
                   'odl.MultiplyOperator(R3.element(%r))' % MUL3.tolist(), lambda x: MUL3 * x),
+    'SeqDiff3': _leaf('R3', 'R3', True, 'LinOp', 'SeqDiff(R3)',
+                      lambda x: np.array([x[1] - x[0], x[2] - x[1], x[0] - x[2]]), alias=False),
     'Pow3': _leaf('R3', 'R3', False, 'NonOp', 'odl.PowerOperator(R3, 2)', lambda x: x * x),
     'Abs3': _leaf('R3', 'R3', False, 'NonOp', 'odl.ufunc_ops.absolute(R3)',
                   lambda x: np.abs(x)),
@@ -213,9 +231,11 @@ OPS = {
     'lsmatmul': ('S', 'E'), 'rsmatmul': ('E', 'S'), 'lvmatmul': ('V', 'E'),
     'rvmatmul': ('E', 'V'),
 }
-# `@` is documented as a synonym of `*`
+# the expression classes built directly with the documented user-supplied temporaries
+OPS.update({'comptmp': ('E', 'E'), 'sumtmp': ('E', 'E'), 'rsmultmp': ('E', 'S')})
+# `@` is documented as a synonym of `*`; the tmp forms mean the same as the plain ones
 ALIAS = {'matmul': 'comp', 'lsmatmul': 'lsmul', 'rsmatmul': 'rsmul', 'lvmatmul': 'lvmul',
-         'rvmatmul': 'rvmul'}
+         'rvmatmul': 'rvmul', 'comptmp': 'comp', 'sumtmp': 'add', 'rsmultmp': 'rsmul'}
 
 
 def children(e):
@@ -408,10 +428,11 @@ FULL = {
     'pows': [1, 2, 3],
     'binary': ['add', 'sub', 'comp', 'matmul', 'pwprod'],
     'at': True,
+    'tmpforms': True,
 }
 # reduced pool for the deepest level: one representative per (type, linear?, class family)
 REDUCED = {
-    'leaves': ['Mat33', 'Pow3', 'Aff3', 'L1_3', 'L2sqT3', 'QF3', 'IP3', 'Norm3',
+    'leaves': ['SeqDiff3', 'Pow3', 'Aff3', 'L1_3', 'L2sqT3', 'QF3', 'IP3', 'Norm3',
                'MatCC', 'PowC', 'L2sqC'],
     'scalars': ['2', '0.5', '0', '1j'],
     'vecs': ['v3', 'v2', 'vc'],
@@ -419,6 +440,7 @@ REDUCED = {
     'pows': [2],
     'binary': ['add', 'sub', 'comp', 'pwprod'],
     'at': False,
+    'tmpforms': False,
 }
 POOLS = {'full': FULL, 'red': REDUCED}
 
@@ -471,6 +493,17 @@ def roots_over(c, pool):
             out.append(['vadd', v, c])
             out.append(['subv', c, v])
             out.append(['vsub', v, c])
+    if pool.get('tmpforms') and c_is_leaf and dom not in FIELDS:
+        for a in pool['scalars']:
+            if in_field(a, Fd):
+                out.append(['rsmultmp', c, a])
+        for name in pool['leaves']:
+            leaf = ['L', name]
+            ld, lr = LEAVES[name]['dom'], LEAVES[name]['ran']
+            if lr == dom:
+                out.append(['comptmp', c, leaf])
+            if ld == dom and lr == ran and ran not in FIELDS:
+                out.append(['sumtmp', c, leaf])
     for name in pool['leaves']:
         leaf = ['L', name]
         ld, lr = LEAVES[name]['dom'], LEAVES[name]['ran']
@@ -538,6 +571,8 @@ OVERLOAD = {
     'vsub': 'v-A', 'neg': '-A', 'pos': '+A', 'pow': 'A**n', 'add': 'A+B', 'sub': 'A-B',
     'comp': 'A*B', 'matmul': 'A@B', 'pwprod': 'PointwiseProduct(A,B)',
     'lsmatmul': 'a@A', 'rsmatmul': 'A@a', 'lvmatmul': 'v@A', 'rvmatmul': 'A@v',
+    'comptmp': 'OperatorComp(A,B,tmp)', 'sumtmp': 'OperatorSum(A,B,tmp_ran,tmp_dom)',
+    'rsmultmp': 'OperatorRightScalarMult(A,a,tmp)',
 }
 
 
@@ -548,6 +583,8 @@ def overload(e):
         s = s.replace('a', '0')
     if e[0] in ('rsmul', 'rsmatmul') and e[2] == '0':
         s = s.replace('a', '0')
+    if e[0] == 'rsmultmp' and e[2] == '0':
+        s = 'OperatorRightScalarMult(A,0,tmp)'
     return s
 
 
@@ -560,9 +597,14 @@ def leaf_names(e):
     return out
 
 
+def alias_safe(e):
+    """Every leaf of the expression may itself be called with ``out is x``."""
+    return all(LEAVES[n]['alias'] for n in leaf_names(e))
+
+
 def marker(e):
     """Regime of the expression by the leaves it contains: complex spaces, leaves between a
-    complex and a real space, leaves defined on a field."""
+    complex and a real space, leaves defined on a field, leaves that are not alias-safe."""
     flags = set()
     for n in leaf_names(e):
         s = LEAVES[n]
@@ -573,6 +615,8 @@ def marker(e):
             flags.add('C')
         if s['dom'] in FIELDS:
             flags.add('Fdom')
+        if not s['alias']:
+            flags.add('unsafeleaf')
     return ''.join('/' + f for f in sorted(flags))
 
 
@@ -609,6 +653,12 @@ def src(e, top=True):
         'rsmatmul': lambda: '%s @ %s' % (E(e[1]), S(e[2])),
         'lvmatmul': lambda: '%s @ %s' % (V(e[1]), E(e[2])),
         'rvmatmul': lambda: '%s @ %s' % (E(e[1]), V(e[2])),
+        'comptmp': lambda: ('(lambda A_, B_: odl.OperatorComp(A_, B_, tmp=A_.domain.element()))'
+                            '(%s, %s)' % (E(e[1]), E(e[2]))),
+        'sumtmp': lambda: ('(lambda A_, B_: odl.OperatorSum(A_, B_, tmp_ran=A_.range.element(), '
+                           'tmp_dom=A_.domain.element()))(%s, %s)' % (E(e[1]), E(e[2]))),
+        'rsmultmp': lambda: ('(lambda A_: odl.OperatorRightScalarMult(A_, %s, '
+                             'tmp=A_.domain.element()))(%s)' % (S(e[2]), E(e[1]))),
         'pwprod': lambda: 'odl.OperatorPointwiseProduct(%s, %s)' % (E(e[1]), E(e[2])),
     }[op]()
     return '(%s)' % fmt
